@@ -39,14 +39,17 @@ def cases(draw):
     nf = len(filters)
     law = draw(gen.wide_laws(8))
     c = {'pkg': pkg, 'filters': filters, 'law': law, 'format': draw(st.sampled_from(['v1', 'v2']))}
+    if c['format'] == 'v1' and len(pkg['names']) >= 2 and draw(st.integers(0, 2)) == 0:
+        # per-file packages may hold SEDs on several wavelength grids
+        c['pkg'] = pkg = draw(convpkg.with_model_grids(pkg))
     lo = draw(st.sampled_from([0., -2., 1.]))
     hi = lo + draw(st.sampled_from([0.5, 10., 40.]))
     c['av_range'] = [lo, hi]
     if pkg['apdep']:
-        s = draw(gen.distance_setup(pkg['apertures'], nf))
+        # (ranges that are a whole number of steps up to rounding leave the grid size ambiguous: the planted distance would not
+        # be well defined, so those shapes are left to C02 / C07)
+        s = draw(gen.distance_setup(pkg['apertures'], nf, shapes=('many', 'many', 'beyond', 'within_step', 'single')))
         s['step'] = pkg['logd_step']
-        if s['shape'] == 'integer_ratio':
-            s['shape'] = 'many'
         c['setup'] = s
         c['theta'] = s['theta']
     else:
@@ -160,6 +163,9 @@ def run_case(case, ctx):
     nf = len(filters)
     float32 = fmt == 'v2'           # fit() memory-maps cube packages: float32 model fluxes
     labels = {'format_' + fmt, 'apdep' if pkg['apdep'] else 'not_apdep', 'storage_' + pkg['storage']}
+    labels.add('sed_layout_' + pkg.get('sed_layout', 'flat') if fmt == 'v1' else 'cube')
+    if pkg.get('par_gz'):
+        labels.add('parameters.fits.gz')
     k = of.extinction_pattern(case['law']['wav'], case['law']['chi'], [f['central'] for f in filters])
     from props.c06 import stored
     spkg = stored(pkg, fmt)
@@ -195,7 +201,7 @@ def run_case(case, ctx):
         with must_succeed('convolve_model_dir'), quiet():
             convolve_model_dir(mdir, [convpkg.filter_object(f) for f in filters])
         if case.get('reorder_after') is not None:
-            pkgio.write_parameters(mdir, names, pkg['params'], order=case['reorder_after'])
+            pkgio.write_parameters(mdir, names, pkg['params'], order=case['reorder_after'], gz=bool(pkg.get('par_gz')))
             labels.add('parameter_rows_reordered_after_convolution')
         data = os.path.join(d, 'data.txt')
         pkgio.write_data_file(data, [pkgio.source_line(p['src']['name'], p['src']['x'], p['src']['y'], p['src']['flags'],
